@@ -1334,11 +1334,11 @@ def run(ctx):
         cases.append(("empty", "\n\n# only a comment", None, 'accept'))
         for t, ex in FIXED:
             cases.append(("fixed", t, None, ex))
-        nvalid = 120 if quick else 4000
+        nvalid = 120 if quick else 2500
         for i in range(nvalid):
             sch = gen.schema()
             cases.append(("valid", render(sch, rng, style=rng.random() < 0.85), None, 'accept'))
-        per_rule = 3 if quick else 70
+        per_rule = 3 if quick else 40
         for name, f in muts:
             done = 0
             for _ in range(per_rule * 4):
@@ -1350,7 +1350,7 @@ def run(ctx):
                 done += 1
                 cases.append(("break:" + name, render(sch, rng, style=rng.random() < 0.7), None, 'reject'))
         decls = split_decls(real)
-        nslice = 60 if quick else 2000
+        nslice = 60 if quick else 1200
         for i in range(nslice):
             k = rng.choice([1, 1, 2, 3])
             j = rng.randrange(len(decls))
@@ -1362,25 +1362,25 @@ def run(ctx):
                 cases.append(("slice-token", token_mutation(sl, rng), None, None))
             else:
                 cases.append(("slice-byte", byte_mutation(sl, rng), None, None))
-        for i in range(80 if quick else 2700):
+        for i in range(80 if quick else 1700):
             sch = gen.schema(size=1)
             t = render(sch, rng)
             for _ in range(rng.choice([1, 1, 2])):
                 t = token_mutation(t, rng) if rng.random() < 0.5 else byte_mutation(t, rng)
             cases.append(("gen-mutated", t, None, None))
-        for i in range(100 if quick else 3300):
+        for i in range(100 if quick else 2000):
             n = rng.randrange(1, 40)
             cases.append(("tokens", ' '.join(rng.choice(VOCAB) for _ in range(n)), None, None))
-        for i in range(80 if quick else 2700):
+        for i in range(80 if quick else 1700):
             cases.append(("numbers", number_text(rng), None, None))
-        for s in float_strings(rng, 110 if quick else 2700):
+        for s in float_strings(rng, 110 if quick else 1700):
             cases.append(("float", 'element a { x : double = %s (min=%s) }' % (s, s), None, None))
         # recursion limit, lowered by the driver so that rl frames are available below _validate
         for rl in ([12, 23] if quick else [12, 17, 23, 40, 61]):
             for shape in ('plain', 'elem', 'cycle', 'dangling', 'selfloop'):
                 for n in range(rl - 3, rl + 3):
                     cases.append(("limit:" + shape, chain_text(n, shape), rl, None))
-        for i in range(10 if quick else 200):
+        for i in range(10 if quick else 120):
             rl = rng.randrange(10, 30)
             sch = gen.schema(size=4)
             cases.append(("limit:valid", render(sch, rng, style=False), rl, None))
